@@ -49,9 +49,12 @@ var simpleKind = "s"
 func main() {
 	o := hlib.ParseFlags()
 	r := hlib.NewResult("C04", o)
-	r.Rule = "histories of queries (small pools of names incl. case variants, qtypes, classes, DO/AD/CD/RD, " +
-		"client locations, declined ECS) interleaved with injected clock advances and evictions against " +
-		"the real simple and ECS cache middlewares (hook clock) over a functional fake upstream; every " +
+	r.Rule = "histories of queries (small pools of names incl. case variants, qtypes incl. SOA/SIG/NS/ANY, classes, DO/AD/CD/RD, " +
+		"client locations incl. one without a GeoIP subnet and one whose subnets nest in another's, declined ECS, client ECS " +
+		"with and without GeoIP data, connection family differing from the ECS family) interleaved with injected clock advances " +
+		"and evictions against the real simple and ECS cache middlewares (hook clock) over a functional fake upstream (incl. " +
+		"names for which it acts on DO without echoing it or drops the OPT record, names for which it echoes class IN whatever " +
+		"was asked, TTLs up to 2^32-1); every " +
 		"response is compared with the Lean model's and, independently, with a fresh instance's answer and " +
 		"the TTL/expiry/cacheability oracle; plus function-level sweeps (findLowestTTL, isCacheable, " +
 		"rmHopToHopData, fromCacheItem at ages around every boundary and on an exhaustive 50 ms grid for small TTLs, key " +
@@ -61,6 +64,10 @@ func main() {
 		"A case is non-trivial when it contains at least one cache hit and one miss; distinct = distinct op logs"
 	if os.Getenv("VERIF_C04_ORIG") == "1" {
 		simpleKind = "o"
+	}
+	if os.Getenv("VERIF_C04_RESPKEY") == "1" {
+		// The tree before the round-3 fix: entries keyed by the response.
+		simpleKind = "k"
 	}
 	m := hlib.StartModel(o.Model, "C04")
 	defer m.Close()
@@ -162,10 +169,29 @@ func showMsg(m *dns.Msg) string {
 // ---------------------------------------------------------------------------
 // Requests.
 
-var countries = []geoip.Country{"US", "DE", "JP"}
+var countries = []geoip.Country{"US", "DE", "JP", "FR", "XX"}
+
+const (
+	// ctryNested is a country whose subnets have the address of country 0's
+	// and a longer prefix: a key that loses the prefix length confuses them.
+	ctryNested = 3
+	// ctryNone is a country the GeoIP database has no subnet for: it answers
+	// with the zero prefix, as geoip.File.SubnetByLocation does.
+	ctryNone = 4
+)
 
 // geoSubnet is the fake GeoIP database: a subnet per (country, family).
 func geoSubnet(ctry int, fam6 bool) netip.Prefix {
+	switch ctry {
+	case ctryNone:
+		return zeroPrefix(fam6)
+	case ctryNested:
+		if fam6 {
+			return netip.MustParsePrefix("2001:db8:1::/56")
+		}
+
+		return netip.MustParsePrefix("100.64.1.0/25")
+	}
 	if fam6 {
 		return netip.MustParsePrefix(fmt.Sprintf("2001:db8:%x::/48", ctry+1))
 	}
@@ -195,15 +221,64 @@ type reqSpec struct {
 	// clientECS: the client sent an ECS option of its own (non-zero prefix).
 	clientECS bool
 	ctry      int
+	// remoteOther: the connection's address family is the other one than that
+	// of the client's ECS option (fam6 is the family the middleware must use:
+	// that of the ECS option if there is one).  Only with declined/clientECS.
+	remoteOther bool
+	// ecsNoLoc: the GeoIP database knows nothing about the client's own ECS
+	// subnet, so the location of the connection counts.  Only with clientECS.
+	ecsNoLoc bool
+}
+
+// connCtry is the country the connection comes from when the client sends an
+// ECS option of its own.
+func (q reqSpec) connCtry() int { return (q.ctry + 1) % len(countries) }
+
+// effCtry is the country whose subnet the ECS middleware must use.
+func (q reqSpec) effCtry() int {
+	if q.clientECS && !q.declined && q.ecsNoLoc {
+		return q.connCtry()
+	}
+
+	return q.ctry
 }
 
 func (q reqSpec) subnetID() int {
-	id := 1 + 2*q.ctry
+	if q.effCtry() == ctryNone {
+		// The zero prefix, the same subnet a declined request uses.
+		return 0
+	}
+	id := 1 + 2*q.effCtry()
 	if q.fam6 {
 		id++
 	}
 
 	return id
+}
+
+// remote6 is the family of the connection's address.
+func (q reqSpec) remote6() bool {
+	if (q.declined || q.clientECS) && q.remoteOther {
+		return !q.fam6
+	}
+
+	return q.fam6
+}
+
+// show is tokens plus what the model does not need to know.
+func (q reqSpec) show() string {
+	s := q.tokens()
+	if q.clientECS && !q.declined {
+		s += " client-ecs"
+		if q.ecsNoLoc {
+			s += "-without-location"
+		}
+	}
+	if q.remote6() != q.fam6 {
+		s += " remote-other-family"
+	}
+
+	return s
 }
 
 // fwdSubnet is the subnet the ECS middleware is expected to forward.
@@ -212,7 +287,7 @@ func (q reqSpec) fwdSubnet() netip.Prefix {
 		return zeroPrefix(q.fam6)
 	}
 
-	return geoSubnet(q.ctry, q.fam6)
+	return geoSubnet(q.effCtry(), q.fam6)
 }
 
 func (q reqSpec) tokens() string {
@@ -241,7 +316,7 @@ func (q reqSpec) ri() *agd.RequestInfo {
 		QClass:   q.qclass,
 		Location: &geoip.Location{Country: countries[q.ctry]},
 	}
-	if q.fam6 {
+	if q.remote6() {
 		ri.RemoteIP = netip.MustParseAddr("2001:db8:ffff::1")
 	} else {
 		ri.RemoteIP = netip.MustParseAddr("192.0.2.1")
@@ -257,8 +332,11 @@ func (q reqSpec) ri() *agd.RequestInfo {
 			sub = netip.MustParsePrefix("2001:db8:abcd::/48")
 		}
 		ri.ECS = &dnsmsg.ECS{Subnet: sub, Location: &geoip.Location{Country: countries[q.ctry]}}
+		if q.ecsNoLoc {
+			ri.ECS.Location = nil
+		}
 		// The connection itself comes from elsewhere.
-		ri.Location = &geoip.Location{Country: countries[(q.ctry+1)%len(countries)]}
+		ri.Location = &geoip.Location{Country: countries[q.connCtry()]}
 	}
 
 	return ri
@@ -327,7 +405,26 @@ func fwdTokens(req *dns.Msg) string {
 
 var ttlPool = []uint32{1, 2, 2, 3, 5, 10, 29, 30, 31, 60, 300, 3600}
 
+// bigTTLs: values whose bits 15, 16, 24, 31 are set (an OPT TTL word, a signed
+// 32-bit number, a float with few fraction bits left).  The two largest go to
+// the ECS cache only: the simple cache rounds float64 seconds, which near 2^31
+// resolve a quarter of a microsecond, less than the real time a case takes.
+var bigTTLs = []uint32{32768, 86400, 604800, 2147483647, 4294967295}
+
 func pickTTL(rng *rand.Rand) uint32 { return ttlPool[rng.IntN(len(ttlPool))] }
+
+func pickBaseTTL(rng *rand.Rand, ecs bool) uint32 {
+	if rng.IntN(12) == 0 {
+		n := 3
+		if ecs {
+			n = len(bigTTLs)
+		}
+
+		return bigTTLs[rng.IntN(n)]
+	}
+
+	return pickTTL(rng)
+}
 
 func mkRR(typ uint16, owner string, class uint16, ttl uint32, rng *rand.Rand) dns.RR {
 	hdr := dns.RR_Header{Name: owner, Rrtype: typ, Class: class, Ttl: ttl}
@@ -347,6 +444,9 @@ func mkRR(typ uint16, owner string, class uint16, ttl uint32, rng *rand.Rand) dn
 
 		return &dns.SOA{Hdr: hdr, Ns: "ns.example.net.", Mbox: "h.example.net.", Serial: uint32(rng.IntN(1000)),
 			Refresh: 1, Retry: 2, Expire: 3, Minttl: mins[rng.IntN(len(mins))]}
+	case dns.TypeSIG:
+		return &dns.SIG{RRSIG: dns.RRSIG{Hdr: hdr, TypeCovered: dns.TypeA, Algorithm: 13, Labels: 2, OrigTtl: ttl, Expiration: 2,
+			Inception: 1, KeyTag: uint16(rng.IntN(65536)), SignerName: "example.net.", Signature: "c2ln"}}
 	case dns.TypeRRSIG:
 		return &dns.RRSIG{Hdr: hdr, TypeCovered: dns.TypeA, Algorithm: 13, Labels: 2, OrigTtl: ttl, Expiration: 2,
 			Inception: 1, KeyTag: uint16(rng.IntN(65536)), SignerName: "example.net.", Signature: "c2ln"}
@@ -386,12 +486,22 @@ func isFakeECSName(lname string) bool { return lname == "126.com." }
 // isNoEDNSName: the upstream ignores EDNS for the name altogether.
 func isNoEDNSName(lname string) bool { return strings.HasPrefix(lname, "noedns") }
 
+// isNoDOEchoName: the upstream acts on the DO bit (its answer is a function of
+// question and DO) but does not say so: its answer carries no OPT record, or
+// one with the DO bit clear.
+func isNoDOEchoName(lname string) bool { return strings.HasPrefix(lname, "nodoecho") }
+
+// isClassEchoName: the upstream echoes the question with class IN whatever
+// class was asked (the forward handler checks id, type and name only); the
+// answer itself is a function of the class asked.
+func isClassEchoName(lname string) bool { return strings.HasPrefix(lname, "classecho") }
+
 // aware tells whether the upstream understands EDNS for the question.
 func (u *universe) aware(lname string, qt, qc uint16) bool {
 	ha := fnv.New64a()
 	_, _ = fmt.Fprintf(ha, "aware|%d|%s|%d|%d", u.seed, lname, qt, qc)
 
-	return !isNoEDNSName(lname) && ha.Sum64()%10 != 0
+	return isNoDOEchoName(lname) || (!isNoEDNSName(lname) && ha.Sum64()%10 != 0)
 }
 
 // answer builds the upstream's response to req.  Everything is derived from
@@ -434,7 +544,7 @@ func (u *universe) answer(req *dns.Msg) (resp *dns.Msg) {
 	resp.Authoritative = rng.IntN(5) == 0
 	resp.AuthenticatedData = rng.IntN(5) < 2
 	resp.RecursionAvailable = rng.IntN(10) != 0
-	base := pickTTL(rng)
+	base := pickBaseTTL(rng, u.ecs)
 	ttl := func() uint32 {
 		if rng.IntN(4) == 0 {
 			return pickTTL(rng)
@@ -525,8 +635,19 @@ func (u *universe) answer(req *dns.Msg) (resp *dns.Msg) {
 		resp.Ns = append(resp.Ns, mkRR(dns.TypeNSEC, owner, cl, ttl(), rng), mkRR(dns.TypeDS, owner, cl, ttl(), rng))
 	}
 
+	if isClassEchoName(lname) {
+		resp.Question[0].Qclass = dns.ClassINET
+	}
+	echoDO := do
+	if isNoDOEchoName(lname) && !u.ecs {
+		// Same answer, but nothing in it tells which DO bit it is for.
+		if rng.IntN(2) == 0 {
+			opt = nil
+		}
+		echoDO = false
+	}
 	if opt != nil {
-		resp.SetEdns0(1232, do)
+		resp.SetEdns0(1232, echoDO)
 		ropt := resp.Extra[len(resp.Extra)-1].(*dns.OPT)
 		if ede || rng.IntN(5) == 0 {
 			ropt.Option = append(ropt.Option, &dns.EDNS0_EDE{InfoCode: uint16(1 + rng.IntN(20)), ExtraText: "x"})
@@ -760,8 +881,10 @@ func sameModTTL(a, b *dns.Msg) (diff string) {
 	if fa != fb {
 		return fmt.Sprintf("flags tc/ad/ra/rd/cd %v vs %v", fa, fb)
 	}
+	// a is the answer served from cache: its question section must be the
+	// request's own (what the upstream echoes in b's is the upstream's business).
 	if len(a.Question) != 1 || len(b.Question) != 1 || !strings.EqualFold(a.Question[0].Name, b.Question[0].Name) ||
-		a.Question[0].Qtype != b.Question[0].Qtype || a.Question[0].Qclass != b.Question[0].Qclass {
+		a.Question[0].Qtype != b.Question[0].Qtype {
 		return fmt.Sprintf("question %v vs %v", a.Question, b.Question)
 	}
 	sa, sb := sections(a), sections(b)
@@ -778,6 +901,26 @@ func sameModTTL(a, b *dns.Msg) (diff string) {
 	}
 
 	return ""
+}
+
+// sameRecords compares rcode and records only (OPT excluded, TTLs masked).
+func sameRecords(a, b *dns.Msg) bool {
+	if a.Rcode != b.Rcode {
+		return false
+	}
+	sa, sb := sections(a), sections(b)
+	for i := range sa {
+		if len(sa[i]) != len(sb[i]) {
+			return false
+		}
+		for j := range sa[i] {
+			if sa[i][j].Header().Rrtype != sb[i][j].Header().Rrtype || rrData(sa[i][j]) != rrData(sb[i][j]) {
+				return false
+			}
+		}
+	}
+
+	return true
 }
 
 // cacheableSpec is the property's list: complete NOERROR (an answer of the
@@ -835,7 +978,14 @@ func lifeSpec(c caseCfg, fresh *dns.Msg) (lifeNs int64) {
 }
 
 // checkHit is the property oracle for one response served from cache.
-func checkHit(r *hlib.Result, c caseCfg, q reqSpec, got, fresh *dns.Msg, ageNs int64, hadMiss bool, replay func() any) {
+//
+// fillers are the earlier requests of the case with the same question, DO bit
+// and family that went to the upstream; freshOf answers one of them from a
+// fresh instance.  They serve to name one known class precisely (see
+// known_findings.d/C04.json): the answer a client WITHOUT a GeoIP subnet got
+// for the zero prefix is shared with clients of every location.
+func checkHit(r *hlib.Result, c caseCfg, q reqSpec, got, fresh *dns.Msg, ageNs int64, hadMiss bool, replay func() any,
+	fillers []reqSpec, freshOf func(f reqSpec) *dns.Msg) {
 	pfx := "simple:"
 	if c.kind == 'e' {
 		pfx = "ecs:"
@@ -846,7 +996,24 @@ func checkHit(r *hlib.Result, c caseCfg, q reqSpec, got, fresh *dns.Msg, ageNs i
 
 		return
 	}
+	if got.Question[0].Qclass != q.qclass || got.Question[0].Qtype != q.qtype || !strings.EqualFold(got.Question[0].Name, q.name) {
+		r.Violate(pfx+"hit-question-not-echoed", fmt.Sprintf("%s: cached answer carries question %v", q.tokens(), got.Question), replay())
+
+		return
+	}
 	if d := sameModTTL(got, fresh); d != "" {
+		for _, f := range fillers {
+			if c.kind != 'e' || f.declined || f.fwdSubnet().Bits() != 0 || q.fwdSubnet() == f.fwdSubnet() {
+				continue
+			}
+			if ff := freshOf(f); ff != nil && sameRecords(got, ff) {
+				r.Violate("ecs:locationless-fill-shared", fmt.Sprintf("%s: served from cache the answer that %s (a client "+
+					"without a GeoIP subnet, not declining ECS) got for the zero prefix: cached %s, fresh %s", q.show(), f.show(),
+					showMsg(got), showMsg(fresh)), replay())
+
+				return
+			}
+		}
 		r.Violate(pfx+"hit-differs-from-fresh", fmt.Sprintf("%s: cached answer differs from a fresh one (%s): "+
 			"cached %s, fresh %s", q.tokens(), d, showMsg(got), showMsg(fresh)), replay())
 
@@ -887,9 +1054,9 @@ type op struct {
 func (o op) String() string {
 	switch o.kind {
 	case 'q':
-		return "q " + o.q.tokens()
+		return "q " + o.q.show()
 	case 'e':
-		return "evict " + o.q.tokens()
+		return "evict " + o.q.show()
 	default:
 		return fmt.Sprintf("advance %dms", o.dtMs)
 	}
@@ -905,6 +1072,13 @@ func runCase(r *hlib.Result, m *hlib.Model, c caseCfg, useed uint64, ops []op, r
 	lines := []string{c.line()}
 	var gots []string
 	lastMiss := map[string]int64{}
+	fills := map[string][]reqSpec{}
+	freshOf := func(f reqSpec) *dns.Msg {
+		fh, _ := newHandler(c, &universe{seed: useed, ecs: c.kind == 'e'}, func() time.Duration { return 0 })
+		fm, _ := exchange(fh, f)
+
+		return fm
+	}
 	hits, misses := 0, 0
 	seq := int64(0)
 	start := time.Now()
@@ -930,12 +1104,17 @@ func runCase(r *hlib.Result, m *hlib.Model, c caseCfg, useed uint64, ops []op, r
 			before := u.calls
 			got, err := exchange(h, o.q)
 			if err != nil || got == nil {
-				r.Violate("middleware-error", fmt.Sprintf("%s: error %v, response %v", o.q.tokens(), err, got), replay())
+				r.Violate("middleware-error", fmt.Sprintf("%s: error %v, response %v", o.q.show(), err, got), replay())
 
 				return true
 			}
 			hit := u.calls == before
-			ua, scope, fake := u.expected(o.q)
+			ua, scope8, fake := u.expected(o.q)
+			scope := int(scope8)
+			if !u.ecs && len(ua.Question) == 1 {
+				// Simple cache: the class the answer echoes (model `k` only).
+				scope = int(ua.Question[0].Qclass)
+			}
 			lines = append(lines, fmt.Sprintf("q %d %s %d %s %s", nowMs*1e6+seq, o.q.tokens(), scope, b2s(fake), msgTokens(ua)))
 			tag := "M "
 			if hit {
@@ -961,11 +1140,16 @@ func runCase(r *hlib.Result, m *hlib.Model, c caseCfg, useed uint64, ops []op, r
 				fu := &universe{seed: useed, ecs: u.ecs}
 				fh, _ := newHandler(c, fu, func() time.Duration { return 0 })
 				fresh, ferr := exchange(fh, o.q)
-				hlib.Must(ferr)
+				if ferr != nil || fresh == nil {
+					r.Violate("middleware-error", fmt.Sprintf("%s: fresh instance: error %v", o.q.show(), ferr), replay())
+
+					return true
+				}
 				t0, had := lastMiss[k]
-				checkHit(r, c, o.q, got, fresh, (nowMs-t0)*1e6, had, replay)
+				checkHit(r, c, o.q, got, fresh, (nowMs-t0)*1e6, had, replay, fills[k], freshOf)
 			} else {
 				lastMiss[k] = nowMs
+				fills[k] = append(fills[k], o.q)
 			}
 		}
 	}
@@ -1002,11 +1186,11 @@ func runCase(r *hlib.Result, m *hlib.Model, c caseCfg, useed uint64, ops []op, r
 var namePool = []string{
 	"example.com.", "EXAMPLE.com.", "ExAmPlE.CoM.", "example.org.", "a.example.com.",
 	"ecs.example.com.", "ECS.example.COM.", "ecs2.example.com.", "noedns.example.com.", "NOEDNS.example.com.",
-	"126.com.", "126.COM.",
+	"126.com.", "126.COM.", "nodoecho.example.com.", "NoDoEcho.example.com.", "classecho.example.com.",
 }
 
 var qtypePool = []uint16{dns.TypeA, dns.TypeA, dns.TypeAAAA, dns.TypeTXT, dns.TypeCNAME, dns.TypeDS, dns.TypeRRSIG,
-	dns.TypeCAA, dns.TypeHTTPS, typPrivate}
+	dns.TypeCAA, dns.TypeHTTPS, typPrivate, dns.TypeSOA, dns.TypeSIG, dns.TypeNS, dns.TypeANY}
 
 func genReq(rng *rand.Rand, names []string, ecs bool) (q reqSpec) {
 	q.name = names[rng.IntN(len(names))]
@@ -1029,8 +1213,11 @@ func genReq(rng *rand.Rand, names []string, ecs bool) (q reqSpec) {
 		switch rng.IntN(6) {
 		case 0:
 			q.declined = true
+			q.remoteOther = rng.IntN(4) == 0
 		case 1:
 			q.clientECS = true
+			q.remoteOther = rng.IntN(4) == 0
+			q.ecsNoLoc = rng.IntN(4) == 0
 		}
 	}
 
@@ -1091,7 +1278,7 @@ func genHistory(rng *rand.Rand, ecs bool) (ops []op) {
 				case 5:
 					if ecs {
 						q.declined = !q.declined
-						q.clientECS = false
+						q.clientECS, q.ecsNoLoc = false, false
 					}
 				}
 			default:
@@ -1177,7 +1364,7 @@ func boundaryCampaign(o *hlib.Opts, r *hlib.Result, m *hlib.Model) {
 func pairCampaign(o *hlib.Opts, r *hlib.Result, m *hlib.Model) {
 	rng := o.Rand("pairs")
 	var pool []reqSpec
-	for _, name := range []string{"example.com.", "EXAMPLE.COM.", "example.org."} {
+	for _, name := range []string{"example.com.", "EXAMPLE.COM.", "example.org.", "nodoecho.example.com.", "classecho.example.com."} {
 		for _, qt := range []uint16{dns.TypeA, dns.TypeAAAA, dns.TypeCAA} {
 			for _, qc := range []uint16{dns.ClassINET, dns.ClassCHAOS} {
 				for _, do := range []bool{false, true} {
@@ -1193,7 +1380,7 @@ func pairCampaign(o *hlib.Opts, r *hlib.Result, m *hlib.Model) {
 			ctry     int
 			fam6     bool
 			declined bool
-		}{{0, false, false}, {1, false, false}, {0, true, false}, {0, false, true}} {
+		}{{0, false, false}, {1, false, false}, {0, true, false}, {0, false, true}, {ctryNested, false, false}, {ctryNone, false, false}} {
 			q.ctry, q.fam6, q.declined = v.ctry, v.fam6, v.declined
 			ecsPool = append(ecsPool, q)
 		}
@@ -1601,6 +1788,7 @@ func realTimeCampaign(o *hlib.Opts, r *hlib.Result) {
 		got, fresh *dns.Msg
 		hit        bool
 		ageLoNs    int64
+		err        error
 	}
 	out := make(chan []res, len(jobs))
 	for _, j := range jobs {
@@ -1615,7 +1803,11 @@ func realTimeCampaign(o *hlib.Opts, r *hlib.Result) {
 					NoECSCount: 16, ECSCount: 16}).Wrap(u)
 			}
 			fresh, err := exchange(h, j.q)
-			hlib.Must(err)
+			if err != nil || fresh == nil {
+				out <- []res{{j: j, err: fmt.Errorf("first exchange: %v", err)}}
+
+				return
+			}
 			setEnd := time.Now()
 			var rs []res
 			for step, w := range j.waitMs {
@@ -1623,7 +1815,11 @@ func realTimeCampaign(o *hlib.Opts, r *hlib.Result) {
 				getStart := time.Now()
 				before := u.calls
 				got, gerr := exchange(h, j.q)
-				hlib.Must(gerr)
+				if gerr != nil || got == nil {
+					rs = append(rs, res{j: j, step: step, err: fmt.Errorf("read %d: %v", step+1, gerr)})
+
+					break
+				}
 				hit := u.calls == before
 				rs = append(rs, res{j: j, step: step, got: got, fresh: fresh, hit: hit, ageLoNs: int64(getStart.Sub(setEnd))})
 				if !hit {
@@ -1636,13 +1832,19 @@ func realTimeCampaign(o *hlib.Opts, r *hlib.Result) {
 	}
 	for range jobs {
 		for _, x := range <-out {
+			if x.err != nil {
+				r.Violate("middleware-error", fmt.Sprintf("%s: %v", x.j.q.show(), x.err), map[string]any{"real_clock": true,
+					"request": x.j.q.show(), "cache": string(x.j.c.kind), "universe": x.j.useed})
+
+				continue
+			}
 			r.Case(fmt.Sprintf("rt %c %s %v %d", x.j.c.kind, x.j.q.tokens(), x.j.waitMs, x.step), x.hit)
 			if x.hit {
 				r.Count(fmt.Sprintf("realtime.hit.read%d", x.step+1))
 				checkHit(r, x.j.c, x.j.q, x.got, x.fresh, x.ageLoNs, true, func() any {
 					return map[string]any{"real_clock": true, "request": x.j.q.tokens(), "sleeps_ms": x.j.waitMs,
 						"read": x.step + 1, "universe": x.j.useed}
-				})
+				}, nil, nil)
 			} else {
 				r.Count("realtime.miss")
 			}
